@@ -745,6 +745,24 @@ type TagExpr struct {
 	ptr  unsafe.Pointer
 	sub  map[string]*TagExpr
 	path string
+	// parent is the evaluator whose Range reached this one (through a collection element
+	// or an interface value)
+	parent *TagExpr
+}
+
+// rangeChild ranges over te, a struct value reached from t, unless that very value is
+// already being ranged over further up: a value graph with a cycle (a tree node that is
+// its own descendant, descriptors that point back to their file) has no end otherwise.
+func (t *TagExpr) rangeChild(te *TagExpr, fn func(*ExprHandler) error) error {
+	if te.ptr != nil {
+		for a := t; a != nil; a = a.parent {
+			if a.ptr == te.ptr && a.s == te.s {
+				return nil
+			}
+		}
+	}
+	te.parent = t
+	return te.Range(fn)
 }
 
 // EvalFloat evaluates the value of the struct tag expression by the selector expression.
@@ -944,7 +962,7 @@ func (t *TagExpr) Range(fn func(*ExprHandler) error) error {
 						if omitNil && p == nil {
 							continue
 						}
-						err = mapKeyStructVM.newTagExpr(p, keyPath).Range(fn)
+						err = t.rangeChild(mapKeyStructVM.newTagExpr(p, keyPath), fn)
 						if err != nil {
 							return err
 						}
@@ -959,7 +977,7 @@ func (t *TagExpr) Range(fn func(*ExprHandler) error) error {
 						if omitNil && p == nil {
 							continue
 						}
-						err = mapOrSliceElemStructVM.newTagExpr(p, f.fieldSelector+"{v for k="+key.String()+"}").Range(fn)
+						err = t.rangeChild(mapOrSliceElemStructVM.newTagExpr(p, f.fieldSelector+"{v for k="+key.String()+"}"), fn)
 						if err != nil {
 							return err
 						}
@@ -979,7 +997,7 @@ func (t *TagExpr) Range(fn func(*ExprHandler) error) error {
 						if omitNil && p == nil {
 							continue
 						}
-						err = mapOrSliceElemStructVM.newTagExpr(p, f.fieldSelector+"["+strconv.Itoa(i)+"]").Range(fn)
+						err = t.rangeChild(mapOrSliceElemStructVM.newTagExpr(p, f.fieldSelector+"["+strconv.Itoa(i)+"]"), fn)
 						if err != nil {
 							return err
 						}
@@ -1000,7 +1018,7 @@ func (t *TagExpr) Range(fn func(*ExprHandler) error) error {
 				if err != nil {
 					return err
 				}
-				return te.Range(fn)
+				return t.rangeChild(te, fn)
 			})
 			if err != nil {
 				return err
@@ -1015,7 +1033,7 @@ func (t *TagExpr) subRange(omitNil bool, path string, value reflect.Value, fn fu
 		if err != nil {
 			return err
 		}
-		return te.Range(fn)
+		return t.rangeChild(te, fn)
 	})
 }
 
